@@ -519,9 +519,31 @@ func addInverseEdges(t *rapid.T, nl *sbom.NodeList) bool {
 	return added
 }
 
+// isAutoID: identifiers whose flag section (before the first "--") carries the auto flag are documented to lose their
+// bom-ref on CycloneDX output; every other identifier, also in the reserved namespace, is an ordinary identifier.
+func isAutoID(id string) bool {
+	return strings.HasPrefix(id, "protobom-") && strings.Contains(strings.Split(id, "--")[0], "-auto")
+}
+
+// reservedPlainID draws identifiers as sbom.NewNodeIdentifier builds them from names ("protobom--<name>",
+// "protobom-node--<name>"), the name made of words that also occur as flags. None of them is auto-flagged.
+func reservedPlainID() *rapid.Generator[string] {
+	return rapid.Custom(func(t *rapid.T) string {
+		words := rapid.SliceOfN(rapid.SampledFrom([]string{"auto", "node", "protobom", "lib", "x", "1.0", "autoconf", "semi-auto"}), 1, 3).Draw(t, "words")
+		sep := rapid.SampledFrom([]string{"-", ".", "--"}).Draw(t, "sep")
+		return rapid.SampledFrom([]string{"protobom--", "protobom-node--"}).Draw(t, "flags") + strings.Join(words, sep)
+	})
+}
+
 func c03Property(t *rapid.T) {
 	hx.Eval()
-	ids := rapid.SliceOfNDistinct(hx.SPDXID(), 6, 6, rapid.ID[string]).Draw(t, "idpool")
+	ids := rapid.SliceOfNDistinct(rapid.OneOf(hx.SPDXID(), hx.SPDXID(), reservedPlainID()), 6, 6, rapid.ID[string]).Draw(t, "idpool")
+	for _, id := range ids {
+		if strings.HasPrefix(id, "protobom-") {
+			hx.Class("id_in_reserved_namespace_not_autogenerated")
+			break
+		}
+	}
 	nl := hx.GenNodeList(t, "G", hx.GraphOpts{IDs: ids, WellFormed: true, MaxNodes: 6, MaxEdges: 8, Types: c03Types, NodeGen: c03Node})
 	hx.ClassIf(addInverseEdges(t, nl), "inverse_relationship_pair")
 	if len(nl.Nodes) > 0 && rapid.IntRange(0, 4).Draw(t, "oneRoot") > 0 {
@@ -679,7 +701,7 @@ func c03RealCase(path string, data []byte, label string) error {
 	}
 	auto := false
 	for _, n := range doc.NodeList.Nodes {
-		auto = auto || strings.HasPrefix(n.Id, "protobom-")
+		auto = auto || isAutoID(n.Id)
 	}
 	fromCDX := bytes.Contains(data[:min(len(data), 4000)], []byte("bomFormat")) || bytes.Contains(data, []byte("\"bomFormat\""))
 	if doc.Metadata != nil && doc.Metadata.Name != "" && len(doc.NodeList.RootElements) == 1 {
